@@ -178,16 +178,18 @@ def gen(rng, tier):
                  "auto with_view = [&](const MD& v, int der, auto&& f) {\n      switch (der) {\n" + "\n".join(cases_d) + "\n      default: break; }\n    };",
                  "const size_t NT = progs.size();",
                  "std::vector<std::vector<long long>> logs(NT); std::vector<int> bad(NT, 0);",
-                 "const auto ref_obs = drv::observe(shared);",
+                 "using ARR = Kokkos::Experimental::mdarray<int, typename M::extents_type, typename M::layout_type>; const ARR carr(m); const ARR carr_ref(m);",
+                 "const auto ref_obs = drv::observe(shared); const auto ref_arr = drv::observe_arr(carr_ref);   // carr itself is first used inside the threads",
                  "drv::run_threads(NT, seed, [&](int tid, drv::Jit& jt) {",
                  "  std::unique_ptr<MD> mine;",
+                 "  if (drv::observe_arr(carr) != ref_arr) ++bad[(size_t)tid];",
                  "  for (const auto& a : progs[(size_t)tid]) {",
                  "    drv::jitter(jt);",
                  "    const MD& src = mine ? *mine : shared;",
                  "    switch (a.kind) {",
                  "    case 0: with_view(src, a.der, [&](const auto& w) { drv::elem(w, a) = (int)a.x; }); break;",
                  "    case 1: with_view(src, a.der, [&](const auto& w) { logs[(size_t)tid].push_back((long long)(int)drv::elem(w, a)); }); break;",
-                 "    case 2: if (drv::observe(src) != ref_obs) ++bad[(size_t)tid]; break;",
+                 "    case 2: if (drv::observe(src) != ref_obs) ++bad[(size_t)tid]; if (drv::observe_arr(carr) != ref_arr) ++bad[(size_t)tid]; break;",
                  "    case 3: mine.reset(new MD(shared)); break;",
                  "    default: with_view(src, a.der, [&](const auto& w) { if (w.size() == (size_t)-1) ++bad[(size_t)tid]; }); break;",
                  "    }",
@@ -325,7 +327,7 @@ def collect(rep, prop, tier, seed, exe, replay=None):
                 "duration, no thread_local, no mutable member, no const_cast; plus a token scan of all headers (%d AST nodes, modes %s).  Thread programs: 2-8 real threads share one const "
                 "mdspan<int> (layouts left/right/stride/left_padded/right_padded, default and proxy accessor) over a buffer with canaries; each thread runs 5-14 (thorough: 8-39) actions: writes "
                 "and reads of elements it owns (reads also of read-only elements) through the shared view, a private copy, or sub-views (1-2 submdspan levels, all slice kinds) created inside the thread, "
-                "in the pack / std::array / std::span form, plus observer calls, copies and sub-view creations; seeded yields and spins.  Compared with the model: the final buffer and every "
+                "in the pack / std::array / std::span form, plus observer calls (on the view and on a shared const mdarray over the same mapping: size, extents, strides, flags, data, to_mdspan, container), copies and sub-view creations; seeded yields and spins.  Compared with the model: the final buffer and every "
                 "thread's read log equal the sequential composition (which the theorems show equals every interleaving); observers inside threads return what they returned before; "
                 "ThreadSanitizer builds (g++, clang++) must report nothing.  non-trivial = at least 2 threads and 2 writes" % (au["nodes"], ",".join(au["modes"])),
         "programs": len(progs) * len(configs), "configurations": configs, "disagreements_checked": len(flagged),
